@@ -30,3 +30,35 @@ func init() {
 		return 0
 	}
 }
+
+func init() {
+	// rule <ID>... : run single rules and print their obligations (REPO, TIER env)
+	extraCmds["rule"] = func(args []string) int {
+		repo, tier := "/repo", "quick"
+		if v := os.Getenv("REPO"); v != "" {
+			repo = v
+		}
+		if v := os.Getenv("TIER"); v != "" {
+			tier = v
+		}
+		c, err := Load(repo, tier)
+		if err != nil {
+			fmt.Fprintln(os.Stderr, err)
+			return 2
+		}
+		for _, id := range args {
+			r := runRule(c, id)
+			if r.broken != "" {
+				fmt.Println("BROKEN", id, r.broken)
+				continue
+			}
+			for _, ob := range r.obls {
+				if ob.Status != Discharged || os.Getenv("V") != "" {
+					fmt.Printf("%s %s %s\n    %s\n", ob.Status, ob.Rule, ob.Construct, ob.By)
+				}
+			}
+			fmt.Printf("%s: %d obligations\n", id, len(r.obls))
+		}
+		return 0
+	}
+}
